@@ -104,7 +104,7 @@ func c12Requests() []req {
 func init() {
 	register("c12", Def{
 		Rule: "every data-producing command (text parse/conv incl. inputs with > 100 AST nodes and failing classifications, write, write event/parse/conv, info attr/chord/key *, gen attr) x k repetitions " +
-			"(quick 8, thorough 40) spread over GOMAXPROCS 1/2/16, --debug on/off, input on stdin / as `-` / as FILE, output on stdout / with -o (thorough: also the -race build); a record is one request " +
+			"(quick 8, thorough 40) spread over GOMAXPROCS 1/2/16, --debug on/off, input on stdin (pipe, slow pipe, `< file`) / as `-` / as FILE (regular, /dev/stdin, named pipe), user dictionary as file / named pipe, output on stdout / with -o (fresh, stale, or onto the input file itself) (thorough: also the -race build); a record is one request " +
 			"class with the sha-256 of every run's output; distinct = distinct request classes",
 		Gen: func(c *Ctx) []Case {
 			cases := []Case{}
@@ -177,8 +177,10 @@ func init() {
 						stdin = []byte(rq.stdin)
 						stdinMode = "slow" // a slow producer writing small blocks with pauses
 						variant = append(variant, "stdin-slow")
-						if i >= 5 { // FILE given as /dev/stdin, or as a named pipe (process substitution)
-							if (i/5)%2 == 1 {
+						// FILE given as /dev/stdin, or as a named pipe (process substitution); which requests get which rotates with
+						// the request index so that the quick tier sees all three on every kind of command
+						if sel := (i/5 + ci(k, "i")) % 3; sel != 0 {
+							if sel == 1 {
 								args = append(args, "/dev/stdin")
 								stdinMode = ""
 								variant[len(variant)-1] = "FILE=/dev/stdin"
@@ -212,7 +214,7 @@ func init() {
 					variant = append(variant, "-o")
 				}
 				// in-place: -o onto the very file the input is read from (the result must be complete all the same)
-				if ofile != "" && i%8 == 3 {
+				if ofile != "" && i%8 == 7 {
 					for ai, a := range args {
 						if rq.stdin != "" && a != "-" && strings.Contains(a, "/in") {
 							args[len(args)-1] = a
